@@ -606,4 +606,65 @@ theorem extend_from_slice_tie (dr : Bool) (empty c d : Cols) (tr : Cols → Nat 
   rw [h]
   simp [Model.extendFromSlice, List.range_eq_range', dropV, ev_append_def]
 
+/-! ## `FromIterator`: `let mut result = …Vec::new(); for element in iter { result.push(element); } result` -/
+
+def fiBody : List St := [(.expr (.mcall (.var "result") "push" [(.var "element")]))]
+
+def fiStmts : List St := [(.let_ "result" (.fcall "PVec::new" [])), (.forIn "element" (.param 0) fiBody)]
+
+theorem fi_stmts : lp_PVec_std_iter_FromIterator_P_from_iter.stmts = fiStmts ∧
+    lp_PVec_std_iter_FromIterator_P_from_iter.tail = some (.var "result") := ⟨rfl, rfl⟩
+
+section fromiter
+variable (dr : Bool) (empty : Cols) (tr : Cols → Nat → Out) (sw : Cols → Nat → Nat → Out) (all : List Cols)
+
+def fiEnv (fuel : Nat) : Env := { dr := dr, ps := [.elems all], M := methodsWith empty tr sw, fuel := fuel }
+
+def fiIter (fuel : Nat) : Cols → Mach → Res Unit := fun e m =>
+  (execList (fiEnv dr empty tr sw all fuel) fiBody { m with locals := ("element", .elem e) :: m.locals }).bind fun _ m =>
+    .ok () { m with locals := m.locals.drop 1,
+                    ev := m.ev ++ dropV (fiEnv dr empty tr sw all fuel).dr ((lookup "element" m.locals).getD .moved) }
+
+theorem extend_panicked_cons {c e : Cols} {es : List Cols} (h : (Model.extend c (e :: es)).panicked = false) :
+    (Model.push c e).panicked = false ∧ (Model.extend (Model.push c e).st es).panicked = false := by
+  simp only [Model.extend] at h
+  by_cases hp : (Model.push c e).panicked = true
+  · simp [hp] at h
+  · simp only [hp, Bool.false_eq_true, ↓reduceIte] at h
+    exact ⟨by simpa using hp, h⟩
+
+theorem fi_loop (F : Nat) : ∀ (es : List Cols) (c : Cols) (m : Mach), m.locals = [("result", .cont c)] →
+    (Model.extend c es).panicked = false →
+    forList (fiIter dr empty tr sw all F) es m = .ok () { m with locals := [("result", .cont (Model.extend c es).st)] }
+  | [], c, m, hl, _ => by
+    cases m; simp_all [forList, Model.extend]
+  | e :: es, c, m, hl, hp => by
+    obtain ⟨hp1, hp2⟩ := extend_panicked_cons hp
+    have hev : (Model.push c e).ev = {} := rfl
+    have ih := fi_loop F es (Model.push c e).st { m with locals := [("result", .cont (Model.push c e).st)] } rfl hp2
+    simp only [forList]
+    simp [fiIter, fiBody, fiEnv, execList, exec, eval, evalList, lookup, hl, callOther, moveArg, methodsWith, asParam, asVar,
+      setLocal, hp1, hev, dropV] at ih ⊢
+    rw [ih]
+    simp [Model.extend, hp1]
+
+end fromiter
+
+/-- **`FromIterator::from_iter`** as extracted: the collected vector is `Model.extend` of the empty vector -/
+theorem from_iter_tie (dr : Bool) (empty self : Cols) (tr : Cols → Nat → Out) (sw : Cols → Nat → Nat → Out) (es : List Cols)
+    (fuel : Nat) (hp : (Model.extend empty es).panicked = false) :
+    run { dr := dr, ps := [.elems es], M := methodsWith empty tr sw, fuel := fuel } lp_PVec_std_iter_FromIterator_P_from_iter self =
+      some { st := self, ret := some (Model.extend empty es).st } := by
+  have h := fi_loop dr empty tr sw es fuel es empty { self := self, locals := [("result", .cont empty)] } rfl hp
+  unfold fiIter at h
+  have hM : (fiEnv dr empty tr sw es fuel).M = methodsWith empty tr sw := rfl
+  have hps : (fiEnv dr empty tr sw es fuel).ps = [.elems es] := rfl
+  have hem : (methodsWith empty tr sw).empty = empty := rfl
+  show run (fiEnv dr empty tr sw es fuel) lp_PVec_std_iter_FromIterator_P_from_iter self = _
+  unfold run
+  rw [fi_stmts.1, fi_stmts.2]
+  simp only [fiStmts, execList, exec, eval, evalList, hM, hps, hem, Res.bind_ok, List.getElem?_cons_zero]
+  rw [h]
+  simp [eval, lookup, leftovers, leftovers.go, hps]
+
 end Soa.Lp
